@@ -127,6 +127,76 @@ def e2_programs_parse(tier_name):
     return driver.parse_only(tier_name)
 
 
+def _stmt(base: int, k: int, entry: int, ctx: int, above: int, trail: int, eol: int, tabs: int) -> bool:
+    from harness import stmtfam
+
+    return stmtfam.check(base + entry % k, ctx, above, trail, eol, tabs) is None
+
+
+def stmt_removal_debug(entry: int, ctx: int, above: int, trail: int, eol: int, tabs: int) -> bool:
+    """Statement family, remove-debug-breakpoint (breakpoint() / pdb.set_trace()) and unused-imports: the trigger
+    statement in 8 block contexts (module level, sole statement of an if / def / else / for body, end of a try body,
+    between statements, after `x = 1; `) x {nothing, comment, blank line, both} above it x trailing comment x LF / CRLF
+    x spaces / tabs, through the complete real pipeline: the original compiles => the output compiles.
+    post: _
+    """
+    return fin(_stmt(0, 3, entry, ctx, above, trail, eol, tabs))
+
+
+def stmt_removal_flow(entry: int, ctx: int, above: int, trail: int, eol: int, tabs: int) -> bool:
+    """Same family: remove-module-global, break-or-continue-out-of-loop (break, continue; the input only parses, so
+    the output must parse), exception-without-raise.
+    post: _
+    """
+    return fin(_stmt(3, 4, entry, ctx, above, trail, eol, tabs))
+
+
+def stmt_removal_assert(entry: int, ctx: int, above: int, trail: int, eol: int, tabs: int) -> bool:
+    """Same family: fix-assert-tuple, remove-assertion-in-pytest-raises, remove-future-imports.
+    post: _
+    """
+    return fin(_stmt(7, 3, entry, ctx, above, trail, eol, tabs))
+
+
+def _sast_compiles(names, which: int, style: int, args: int, decoy: int, layout: int) -> bool:
+    from harness import hardsast
+
+    return hardsast.check_kind(_pick(names, which), style, args, decoy, layout, "compile") is None
+
+
+from harness.hardsast import SAST_A, SAST_B, SAST_C, SAST_D  # noqa: E402
+
+
+def sast_family_compiles_a(which: int, style: int, args: int, decoy: int, layout: int) -> bool:
+    """Detector-driven hardening family (harness/hardsast.py; one result placed on the call; import style x argument
+    list x surroundings x layout incl. one-argument-per-line and function bodies): the rewritten module compiles.
+    Codemods: add-requests-timeouts, django-json-response-type, enable-jinja2-autoescape, harden-pyyaml, harden-ruamel.
+    post: _
+    """
+    return fin(_sast_compiles(SAST_A, which, style, args, decoy, layout))
+
+
+def sast_family_compiles_b(which: int, style: int, args: int, decoy: int, layout: int) -> bool:
+    """Same: jwt-decode-verify, limit-readline, requests-verify, safe-lxml-parser-defaults, safe-lxml-parsing.
+    post: _
+    """
+    return fin(_sast_compiles(SAST_B, which, style, args, decoy, layout))
+
+
+def sast_family_compiles_c(which: int, style: int, args: int, decoy: int, layout: int) -> bool:
+    """Same: sandbox-process-creation, secure-flask-cookie, secure-random.
+    post: _
+    """
+    return fin(_sast_compiles(SAST_C, which, style, args, decoy, layout))
+
+
+def sast_family_compiles_d(which: int, style: int, args: int, decoy: int, layout: int) -> bool:
+    """Same: upgrade-sslcontext-tls, url-sandbox, fix-deprecated-logging-warn.
+    post: _
+    """
+    return fin(_sast_compiles(SAST_D, which, style, args, decoy, layout))
+
+
 def planted_token(n: int) -> bool:
     """Self-test: gluing a single-quoted content into double quotes must be refuted by the token oracle.
     pre: 0 <= n <= 1
@@ -140,15 +210,27 @@ def warmup():
     lazy_plus_token(2, 0, 5, 0, 0, 0, False)
     lazy_plus_token(1, 0, 0, 0, 1, 2, True)
     lazy_plus_token(2, 0, 1, 0, 2, 1, False)
+    from harness import hardsast, stmtfam
+
+    for _e in range(len(stmtfam.TABLE)):
+        stmtfam.check(_e, 1, 1, 1, 1, 1)
+    for _n in hardsast.ORDER:
+        hardsast.check(_n, 1, 1, 1, 1)
 
 
 SPEC = {
     "property": "C01",
     "level": "model_checking",
     "files": ["src/core_codemods/lazy_logging.py", "src/core_codemods/invert_boolean_check.py", "src/core_codemods/combine_calls_base.py"],
-    "functions": ["LazyLogging.make_args_for_plus / process_concat / is_str_concat", "UseGenerator.leave_Call", "the real pipelines of the three E2 codemods (output must parse)"],
+    "functions": [
+        "LazyLogging.make_args_for_plus / process_concat / is_str_concat",
+        "UseGenerator.leave_Call",
+        "the real pipelines of the three E2 codemods (output must parse)",
+        "statement family: the complete real pipelines of remove-debug-breakpoint, unused-imports, remove-module-global, break-or-continue-out-of-loop, exception-without-raise, fix-assert-tuple, remove-assertion-in-pytest-raises, remove-future-imports (removal sentinels, flattening, libcst's `pass` fallback) over block contexts x comments x CRLF x tabs",
+        "detector-driven hardening family: the complete real transformer chains of 16 semgrep-detected codemods with one result placed on the call (output must compile)",
+    ],
     "bounds": {
-        "quick": "literal content <= 2 characters over {a, double quote, single quote, backslash, newline, %, {, space}; 4 quote styles x 5 prefixes; one or two literal pieces; E2 quick grammar",
+        "quick": "literal content <= 2 characters over {a, double quote, single quote, backslash, newline, %, {, space}; 4 quote styles x 5 prefixes; one or two literal pieces; E2 quick grammar; statement family: 10 triggers x <= 8 block contexts x 4 leading-trivia shapes x trailing comment x LF/CRLF x spaces/tabs; detector-driven family: 16 codemods x 4 import styles x 3-4 argument lists x 3 surroundings x 3 layouts",
         "thorough": "content <= 3 characters; E2 thorough grammar",
     },
     "assumptions": [
@@ -157,11 +239,18 @@ SPEC = {
         "literal tokens are built from symbolic selectors and are concrete on each path (the validity oracle is Python's own parser)",
     ],
     "stubs": ["self of LazyLogging (resolve_expression answers with a literal)", "FileContext with a non-existent path (E2 by-product)"],
-    "outside": ["every other codemod's effect on arbitrary surrounding code, CRLF / tab layouts, codemod sequences, removal / flatten sentinels", "sql-parameterization's literal surgery (needs scope metadata)", "code paths that re-parse an assembled string with cst.parse_expression (they fail closed: C10)"],
+    "outside": ["codemods outside the families listed under functions; codemod sequences K1;K2 in one run; contexts deeper than one block", "sql-parameterization's literal surgery (needs scope metadata)", "code paths that re-parse an assembled string with cst.parse_expression (they fail closed: C10)"],
     "drivers": [e2_programs_parse],
     "xh": [
         Xh("lazy_plus_token", 400, 1500),
         Xh("use_generator_parses", 150, 300),
+        Xh("stmt_removal_debug", 400, 800),
+        Xh("stmt_removal_flow", 400, 800),
+        Xh("stmt_removal_assert", 400, 800),
+        Xh("sast_family_compiles_a", 400, 800),
+        Xh("sast_family_compiles_b", 400, 800),
+        Xh("sast_family_compiles_c", 400, 800),
+        Xh("sast_family_compiles_d", 400, 800),
         Xh("planted_token", 60, 120, twin=False, expect="refuted"),
     ],
 }
